@@ -125,6 +125,7 @@ func c06(p *core.Prog, r *core.Report) {
 	envelope(mustFunc(p, r, "", "", "parseInboundFragment"), "read")
 
 	c06Stamping(p, r)
+	c06RawHeader(p, r)
 	c06Inside(p, r)
 	c06Encode(p, r)
 }
@@ -240,6 +241,152 @@ func c06Stamping(p *core.Prog, r *core.Report) {
 			}
 		})
 		r.Check(ok, "C06-R3", fname(wo), "writes buffer[:FrameSize()]", p.Pos(wo.Pos()), "exactly the declared number of bytes is written", "WriteOut does not write exactly FrameSize() bytes")
+	}
+}
+
+// c06RawHeader: the 16 header bytes that leave the process are exactly what
+// FrameHeader.write (whose layout R1 compares with the specification)
+// produced: WriteOut serialises the header into headerBuffer through it on
+// every path before the buffer is written, checks its error, and nothing else
+// writes the frame's raw buffer except the constructor, the copy of a received
+// header and the test pool's scrubbing of a released frame.
+func c06RawHeader(p *core.Prog, r *core.Report) {
+	bufF := p.Field("", "Frame", "buffer")
+	hdrF := p.Field("", "Frame", "headerBuffer")
+	if bufF == nil || hdrF == nil {
+		r.Errorf("Frame.buffer / Frame.headerBuffer do not resolve")
+		return
+	}
+	wo := mustFunc(p, r, "", "Frame", "WriteOut")
+	if wo != nil {
+		var hw ssa.CallInstruction
+		wrapped := false
+		var wr []ssa.Instruction
+		core.EachInstr(wo, func(i ssa.Instruction) {
+			if c, ok := core.IsCall(i, "FrameHeader.write"); ok {
+				hw = c
+			}
+			if c, ok := core.IsCall(i, "typed.WriteBuffer.Wrap"); ok {
+				if core.LoadedField(core.CallArgs(c)[1]) == hdrF {
+					wrapped = true
+				}
+			}
+			if _, ok := core.IsCall(i, "io.Writer.Write"); ok {
+				wr = append(wr, i)
+			}
+		})
+		ok := hw != nil && wrapped && len(wr) > 0
+		how := "header serialised by FrameHeader.write into headerBuffer before every Write"
+		if ok {
+			res := core.ReachAvoiding(wo, nil, func(j ssa.Instruction) bool {
+				_, w := core.IsCall(j, "io.Writer.Write")
+				return w
+			}, func(j ssa.Instruction) bool { return j == hw.(ssa.Instruction) }, nil)
+			if res.Found {
+				ok = false
+			}
+			// the error of the header write is looked at (an over-long / failed header must not go out)
+			if v := hw.Value(); v == nil || len(*v.Referrers()) == 0 {
+				ok = false
+			}
+		}
+		r.Check(ok, "C06-R3", fname(wo), "header bytes = FrameHeader.write(headerBuffer) before Write", p.Pos(wo.Pos()), how,
+			"WriteOut can put the buffer on the wire without first serialising the header through FrameHeader.write into headerBuffer (stale or partial header bytes go out)")
+	}
+	// who may write the raw buffer
+	type allow struct{ fn, what string }
+	allowed := map[allow]string{
+		{"NewFrame", "store"}:                          "constructor carves Payload and headerBuffer out of the buffer",
+		{"(*Frame).ReadBody", "copy-dst"}:              "copy of the received 16 header bytes (mirror of the wire)",
+		{"(*Frame).WriteOut", "typed.WriteBuffer.Wrap"}: "the layout-checked header writer",
+		{"(*Frame).WriteOut", "io.Writer.Write"}:        "the frame goes to the wire",
+		{"(*CheckedFramePoolForTest).Release", "zeroOut"}: "test pool scrubs a released frame",
+		{"(*CheckedFramePoolForTest).Release", "fieldstore"}: "test pool scrubs a released frame",
+	}
+	n := 0
+	for _, fn := range p.SrcFuncs {
+		if pkgOf(fn) != core.Root {
+			continue
+		}
+		derived := map[ssa.Value]bool{}
+		core.EachInstr(fn, func(i ssa.Instruction) {
+			if v, ok := i.(ssa.Value); ok {
+				if f := core.LoadedField(v); f == bufF || f == hdrF {
+					derived[v] = true
+				}
+			}
+		})
+		if len(derived) == 0 {
+			// direct stores to the fields (f.buffer = x) still count
+		}
+		for changed := true; changed; {
+			changed = false
+			core.EachInstr(fn, func(i ssa.Instruction) {
+				switch x := i.(type) {
+				case *ssa.Slice:
+					if derived[x.X] && !derived[x] {
+						derived[x] = true
+						changed = true
+					}
+				case *ssa.Phi:
+					for _, e := range x.Edges {
+						if derived[e] && !derived[x] {
+							derived[x] = true
+							changed = true
+						}
+					}
+				}
+			})
+		}
+		report := func(i ssa.Instruction, what, desc string) {
+			n++
+			_, ok := allowed[allow{fname(fn), what}]
+			r.Check(ok, "C06-R3", fname(fn), "raw frame buffer: "+desc, p.Pos(i.Pos()), "reviewed writer of the raw frame buffer: "+allowed[allow{fname(fn), what}],
+				"the frame's raw header/buffer bytes are written outside FrameHeader.write ("+desc+"): the bytes on the wire no longer come from the layout-checked header writer")
+		}
+		core.EachInstr(fn, func(i ssa.Instruction) {
+			switch x := i.(type) {
+			case *ssa.Store:
+				if f := core.AddrField(x.Addr); f == bufF || f == hdrF {
+					if fname(fn) == "NewFrame" {
+						report(i, "store", "field "+f.Name()+" assigned")
+					} else {
+						report(i, "fieldstore", "field "+f.Name()+" assigned")
+					}
+					return
+				}
+				if ia, ok := x.Addr.(*ssa.IndexAddr); ok && derived[ia.X] {
+					report(i, "index-store", "element store into the raw buffer")
+					return
+				}
+				if derived[x.Val] {
+					report(i, "store", "slice of the raw buffer stored")
+				}
+			case ssa.CallInstruction:
+				cc := x.Common()
+				if b, ok := cc.Value.(*ssa.Builtin); ok {
+					if b.Name() == "copy" && derived[cc.Args[0]] {
+						report(i, "copy-dst", "copy into the raw buffer")
+					}
+					if b.Name() == "append" && derived[cc.Args[0]] {
+						report(i, "append", "append to the raw buffer")
+					}
+					return
+				}
+				for _, a := range core.CallArgs(x) {
+					if derived[a] {
+						k := "dynamic call"
+						if o := core.CalleeObj(x); o != nil {
+							k = core.ShortKey(o)
+						}
+						report(i, k, "passed to "+k)
+					}
+				}
+			}
+		})
+	}
+	if n < 6 {
+		r.Errorf("C06-R3 raw-buffer census matched %d sites (expected at least 6): anchors moved", n)
 	}
 }
 
